@@ -255,6 +255,7 @@ class Interp:
             'math.log2': __import__('math').log2,
             'math.floor': __import__('math').floor,
             'logging.getLogger': lambda *a: _NullLogger(),
+            'more_itertools.consume': lambda it_, n=None: [None for _ in it_] and None,
             'typing.cast': lambda t, v: v,
             'tp.cast': lambda t, v: v,
         }
